@@ -1,6 +1,12 @@
 // C10 harness: container / index cores driven over exhaustive small shapes under ASan+UBSan.
 #include "common/verif.hpp"
 #include <AIToolbox/Factored/Utils/Core.hpp>
+#include "common/gen.hpp"
+#include <AIToolbox/Seeder.hpp>
+#include <AIToolbox/MDP/Algorithms/MCTS.hpp>
+#include <AIToolbox/POMDP/Algorithms/POMCP.hpp>
+#include <AIToolbox/POMDP/Algorithms/rPOMCP.hpp>
+#include <AIToolbox/POMDP/Environments/TigerProblem.hpp>
 
 using namespace verif;
 namespace F = AIToolbox::Factored;
@@ -21,7 +27,7 @@ static void build_spaces(int maxFactors, int maxSize) {
 
 long verif::verif_ncases(const std::string & tier) {
     if (tier == "thorough") build_spaces(4, 3); else build_spaces(3, 2);
-    return (long)g_spaces.size() + (tier == "thorough" ? 2000 : 200);
+    return (long)g_spaces.size() + (tier == "thorough" ? 2000 : 200) + (tier == "thorough" ? 400 : 60);
 }
 
 // all partial assignments over a space
@@ -47,7 +53,49 @@ static void emit_match(const F::PartialFactors & l, const F::PartialFactors & r)
     Line o; o << "C10" << "match"; o.nats(l.first); o.nats(l.second); o.nats(r.first); o.nats(r.second); o << "|" << m; o.emit();
 }
 
+// Online planners: documented call sequences sampleAction(b,h) then sampleAction(a,o,h') with varying horizons.
+// Only memory safety / in-range results are observed here (C19 checks the tree semantics).
+template <class Planner, class Model>
+static void planner_sequence(Rng & rng, const char * name, Planner & pl, const Model & m, size_t S, size_t A, size_t O) {
+    AIToolbox::Vector b = dyadicBelief(rng, S);
+    unsigned h = (unsigned)rng.range(1, 4);
+    size_t a = pl.sampleAction(b, h);
+    bool ok = a < A;
+    size_t s = rng.below(S);
+    for (int step = 0; step < 6 && ok; ++step) {
+        auto [s1, o, r] = m.sampleSOR(s, a); (void)r; s = s1;
+        if (rng.coin(1, 5)) o = rng.below(O);                 // a never-simulated observation now and then
+        unsigned h2 = (unsigned)rng.range(1, 4);              // horizon may shrink, stay or grow between calls
+        a = pl.sampleAction(a, o, h2);
+        ok = a < A;
+    }
+    Line l; l << "C10" << "range" << name << "|" << ok; l.emit();
+}
+
 void verif::verif_case(Rng & rng, long idx, const std::string & tier) {
+    const long nShape = (long)g_spaces.size() + (tier == "thorough" ? 2000 : 200);
+    if (idx >= nShape) {
+        namespace P = AIToolbox::POMDP;
+        AIToolbox::Seeder::setRootSeed((unsigned)rng.next());
+        bool tiger = rng.coin(1, 3);
+        PomdpTables t = randomPomdp(rng, 2 + rng.below(2), 1 + rng.below(3), 1 + rng.below(3));
+        auto m = tiger ? P::makeTigerProblem() : toDense(t);
+        if (tiger) m.setDiscount(0.75);
+        size_t S = m.getS(), A = m.getA(), O = m.getO();
+        switch (idx % 4) {
+            case 0: { P::POMCP<decltype(m)> pl(m, 20, 40, 2.0); planner_sequence(rng, "POMCP", pl, m, S, A, O); break; }
+            case 1: { P::rPOMCP<decltype(m), true> pl(m, 20, 40, 2.0, 1); planner_sequence(rng, "rPOMCP<entropy>", pl, m, S, A, O); break; }
+            case 2: { P::rPOMCP<decltype(m), false> pl(m, 20, 40, 2.0, 1); planner_sequence(rng, "rPOMCP<maxbelief>", pl, m, S, A, O); break; }
+            default: {
+                AIToolbox::MDP::MCTS<decltype(m)> pl(m, 40, 2.0);
+                size_t s = rng.below(S); unsigned h = (unsigned)rng.range(1, 4);
+                size_t a = pl.sampleAction(s, h); bool ok = a < A;
+                for (int step = 0; step < 6 && ok; ++step) { auto [s1, r] = m.sampleSR(s, a); (void)r; s = s1; a = pl.sampleAction(a, s, (unsigned)rng.range(1, 4)); ok = a < A; }
+                Line l; l << "C10" << "range" << "MCTS" << "|" << ok; l.emit();
+            }
+        }
+        return;
+    }
     if (idx < (long)g_spaces.size()) {
         auto ps = allPartials(g_spaces[idx]);
         for (auto & l : ps) for (auto & r : ps) emit_match(l, r);
